@@ -75,9 +75,13 @@ def cases(tier, seed):
         for hm in (range(1, 1 << n) if n < 3 else [(1 << n) - 1]):
             for k in ('pass', 'fail', 'skip_dec', 'skip_cls', 'skip_body'):
                 for mode in ('c', 'c+v3', 'c+v4+slow', 'v4', 'p', 'D'):
-                    if mode == 'D' and k == 'fail':
-                        continue         # (pdb would start)
                     yield [n, g, kind, hm, 'both', [k, 'pass'], 1, mode]
+                    if mode == 'D' and k == 'fail':
+                        # (the debugger is scripted: it returns at once, the
+                        # run then ends with EndRun)
+                        for k2 in ('error', 'setup_err', 'teardown_err', 'sub:1,0,1'):
+                            yield [n, g, kind, hm, 'both', [k2, 'pass'], 1, mode]
+                            yield [n, g, kind, hm, 'both', ['pass', k2], 2, mode]
     # layer objects of other shapes (falsy instance layers, value-equal
     # layers with copied bases, name-shadowed layers, dotted-string
     # declarations): their per-test hooks bracket the tests all the same
@@ -114,6 +118,13 @@ def cases(tier, seed):
             for perm in itertools.permutations(range(nn)):
                 for kind in kk:
                     yield [nn, g, kind, (1 << nn) - 1, 'both', ['pass'], 1, '', list(perm)]
+    # ... and hand-picked graphs on 5 and 6 layers under every naming
+    for g in worlds.DEEP_GRAPHS:
+        nn = len(g)
+        kk = ['i'] + (['c'] if worlds.c3_ok(g) else [])
+        for perm in itertools.permutations(range(nn)):
+            for kind in kk:
+                yield [nn, g, kind, (1 << nn) - 1, 'both', ['pass'], 1, '', list(perm)]
     if tier == 'thorough':
         for n, g, kind in _graphs(3):
             for hm in range(1, 1 << n):
@@ -201,7 +212,26 @@ HISTORY_MAX = 8
 def run_case(case):
     n, g, kind, hm, side, seq, rep, mode = case[:8]
     spec, argv = build_spec(case)
-    res = runrt.run_world(spec, argv)
+    if mode == 'D':
+        # own the debugger: a session that returns at once
+        import zope.testrunner.debug as _dbg
+
+        class _Pdb:
+            @staticmethod
+            def post_mortem(tb=None):
+                return None
+
+            @staticmethod
+            def set_trace(*a, **k):
+                return None
+        _saved_pdb = _dbg.pdb
+        _dbg.pdb = _Pdb
+        try:
+            res = runrt.run_world(spec, argv)
+        finally:
+            _dbg.pdb = _saved_pdb
+    else:
+        res = runrt.run_world(spec, argv)
     sv = monitors.SpecView(spec)
     states, transitions = set(), set()
     viol = []
@@ -247,7 +277,15 @@ def run_case(case):
                 if depth == 0:
                     nb += 1
         want = sum(1 for t in spec['tests'] if any(sv.has_hook(L, 'testSetUp') for L in sv.closure[t['l']]))
-        if nb != want * rep:
+        ends_early = any(k in ('fail', 'error', 'setup_err', 'teardown_err') or k.startswith('sub:') for k in seq)
+        if ends_early:
+            # the (scripted) debugger session is followed by EndRun: the tests
+            # behind the first bad one do not start; the brackets of those
+            # that did must be complete (checked above) and there is >= 1
+            if want and not (1 <= nb <= want * rep):
+                viol.append({'clause': 'testSetUp_missing', 'sig': {'k': 'D'},
+                             'detail': '%d complete hook brackets, expected between 1 and %d (post-mortem ends the run)\nargv=%s spec=%s' % (nb, want * rep, argv, spec)})
+        elif nb != want * rep:
             viol.append({'clause': 'testSetUp_missing', 'sig': {'k': 'D'},
                          'detail': '%d complete hook brackets for %d tests on hook-bearing stacks\nargv=%s spec=%s' % (nb, want * rep, argv, spec)})
     else:
